@@ -353,7 +353,16 @@ class _Parser:
                     self.in_op = False
                 return
         if injected:
-            self.emit(f"injected {name} {errno or ret}")
+            # a fault injected into a call on a descriptor that is no file (the runtime's eventfd / wake-up pipe, a
+            # socket) is no fault of "a filesystem operation issued on behalf of a cache call": reported under another
+            # name, so that the fault legs do not count the run
+            m = re.match(r"^\s*(\d+)<([^/].*)>\s*$", a[0]) if a else None
+            if m and m.group(1) in ("1", "2"):
+                self.emit(f"stdio-injected {name} {errno or ret}")          # the harness's own diagnostics
+            elif m:
+                self.emit(f"nonfs-injected {name} {errno or ret} {m.group(2)[:40]}")
+            else:
+                self.emit(f"injected {name} {errno or ret}")
             return
         if ret == "?":                                  # the process died inside the call
             self.never_returned.append(line)
